@@ -192,6 +192,41 @@ def fuzz_inputs(tier, seed):
     return out
 
 
+# texts with the same name repeated in every position that takes a list of names or members (a parser that collects such
+# names in a host set or dict and lets their iteration order reach a message gives different outcomes in different processes)
+REPEATS = ["def f(alpha, beta, alpha, beta, gamma, gamma) alpha", "fn(zeta, eta, zeta, eta, theta, theta) 1", "def f(a, b = 1, a = 2, b = 3) a",
+           "<*alpha = 1, beta = 2, alpha = 3, beta = 4, gamma = 5, gamma = 6*>", "<<<alpha => 1, beta => 2, alpha => 3, beta => 4>>>",
+           "def [alpha, beta, alpha, beta, gamma, gamma] = [1, 2, 3, 4, 5, 6]", "[alpha, beta, alpha, beta] = [1, 2, 3, 4]",
+           "require Math import [PI as alpha, E as beta, PI as alpha, E as beta, PI as gamma]", "require Math import [alpha, beta, alpha, beta, gamma, gamma]",
+           "f(alpha = 1, beta = 2, alpha = 3, beta = 4, gamma = 5, gamma = 6)", "for [alpha, beta, alpha, beta] in [[1, 2, 3, 4]] do alpha end",
+           "def f(alpha, beta, alpha, beta) do def alpha = 1; def beta = 2; def alpha = 3 end", "def f(a, a...) a", "def f(a..., b..., a...) a",
+           "<<alpha, beta, alpha, beta, gamma, gamma>>", "def f(alpha, beta, alpha", "<*alpha = 1, beta = 2, alpha = 3, beta", "def f(if, then, if, then) 1"]
+
+
+def json_dumps(x):
+    import json
+    return json.dumps(x)
+
+
+def _outcomes_in_fresh_process(texts, hashseed):
+    import json
+    import os
+    import subprocess
+    import sys
+    prog = ("import sys, json\nsys.path.insert(0, sys.argv[1])\nfrom ckl.parser import parse_script\nfrom ckl.errors import CklSyntaxError\n"
+            "out = []\nfor t in json.loads(sys.stdin.read()):\n"
+            "    try:\n        n = parse_script(t, 'p.ckl'); out.append(['ok', repr(n)])\n"
+            "    except CklSyntaxError as e:\n        out.append(['syntax', str(e.msg), str(e.pos)])\n"
+            "    except BaseException as e:\n        out.append(['host', type(e).__name__])\nprint(json.dumps(out))\n")
+    env = dict(os.environ, PYTHONHASHSEED=str(hashseed))
+    root = os.path.join(os.environ.get("VERIF_REPO", "/repo"), "src")
+    r = subprocess.run([sys.executable, "-c", prog, root], input=json.dumps(texts), capture_output=True, text=True, env=env, timeout=300)
+    try:
+        return json.loads(r.stdout)
+    except Exception:
+        return [["crash", r.stderr[-200:]]] * len(texts)
+
+
 def bounded(tier, seed):
     import multiprocessing as mp
     import time
@@ -212,7 +247,20 @@ def bounded(tier, seed):
             continue
         seen.add(key)
         out.append({"id": f"bounded:parse-total[{key}]", "input": repr(src), "observed": why, "expected": "a program or CklSyntaxError(msg, pos)"})
-    return [BoundedResult("fuzzing of the real parse_script (2 s alarm, determinism re-check)",
+    # the same text gives the same outcome (program text / message and position) in every process
+    t1 = time.time()
+    texts = REPEATS + [" ".join(p) if isinstance(p, (list, tuple)) else p for p in PROGRAMS][:60] + sorted(set(inputs))[:: max(1, len(set(inputs)) // 300)][:300]
+    nproc = 8 if tier == "thorough" else 4
+    runs = [_outcomes_in_fresh_process(texts, (seed * 131 + i * 7919 + 1) % 4294967295) for i in range(nproc)]
+    pfails = []
+    for i, t in enumerate(texts):
+        outs = {json_dumps(r[i]) for r in runs}
+        if len(outs) > 1 and len(pfails) < 3:
+            pfails.append({"id": "bounded:same-text-same-outcome-in-every-process", "input": repr(t), "observed": " | ".join(sorted(outs))[:400], "expected": "one outcome"})
+    rp = BoundedResult("the same texts parsed in fresh processes under different string-hash seeds (program rendering, message and position compared)",
+                       f"{len(texts)} texts (names repeated in every list position, grammatical programs, a sample of the fuzz inputs) x {nproc} processes",
+                       len(texts) * nproc, len(texts), pfails, [{"src": REPEATS[0]}], "the outcome depends on the text alone", time.time() - t1)
+    return [rp, BoundedResult("fuzzing of the real parse_script (2 s alarm, determinism re-check)",
                           f"all token sequences of length <= {3 if tier == 'thorough' else 2} over a {len(ALPHABET)}-token alphabet, random sequences of 3..12 tokens, "
                           f"every prefix / single-token deletion / sampled insertion+substitution of {len(PROGRAMS)} grammatical programs, character noise",
                           total, len(set(inputs)), out, [{"src": "def f( a , b"}], "cross-check of the proof part", time.time() - t0)]
